@@ -175,3 +175,135 @@ Example clone_nonvacuous :
   | None => false
   end = true.
 Proof. vm_compute. eexists. split; reflexivity. Qed.
+
+(* ------------------------------------------------------------------ *)
+(* the internal users of tree surgery (Users.v: each a short program    *)
+(* over the operations above)                                           *)
+(* ------------------------------------------------------------------ *)
+From SV Require Import C19.Users C19.UsersFrames C19.UsersMultiref.
+
+(* Any of these programs that stays inside the reference's domain -- Import.apply
+   and import_schema always do on a live schema / definitions root and a
+   parentless schema document -- refines the reference and keeps WF. *)
+Theorem internal_programs_refine : forall m s rs c rs',
+  R s rs -> ref_run rs (call_prog s c) = Some rs' ->
+  R (run m s (call_prog s c)) rs' /\
+  WF (run m s (call_prog s c)) (fun i => In i (ids_f (r_forest rs'))).
+Proof. exact internal_program_refines_l. Qed.
+Print Assumptions internal_programs_refine.
+
+(* xsd.doctor.Import.apply: nothing at all when the schema is the namespace
+   itself or already imports it; otherwise exactly one new xs:import node is
+   written, in FRONT of the root's children, whose order and every other cell
+   are untouched *)
+Theorem import_apply_frame : forall m s root ns loc cr,
+  get s root = Some cr -> (root < s_next s)%N ->
+  let s' := run m s (import_prog s root ns loc) in
+  if import_itself s root ns || import_exists s root ns then s' = s
+  else
+    get s' root = Some (w_kids cr (s_next s :: c_kids cr)) /\
+    (exists d, get s' (s_next s) = Some (mkC (Some root) [] d) /\
+               d_name d = s_import /\ d_prefix d = Some s_xs) /\
+    (forall i, i <> root -> i <> s_next s -> get s' i = get s i) /\
+    s_next s' = N.succ (s_next s).
+Proof. exact import_apply_frame_l. Qed.
+Print Assumptions import_apply_frame.
+
+(* wsdl.Import.import_schema into the importer's own types element: the schema
+   root becomes its LAST child and points to it; nothing else is written *)
+Theorem import_schema_frame_own : forall m s defroot t schema ct cs,
+  get s t = Some ct -> get s schema = Some cs -> t <> schema ->
+  let s' := run m s (import_schema_prog s defroot (Some t) schema) in
+  get s' t = Some (w_kids ct (c_kids ct ++ [schema])) /\
+  get s' schema = Some (w_parent cs (Some t)) /\
+  (forall i, i <> t -> i <> schema -> get s' i = get s i) /\
+  s_next s' = s_next s.
+Proof. exact import_schema_frame_own_l. Qed.
+Print Assumptions import_schema_frame_own.
+
+(* ... or into a new types element put in front of the definitions' children *)
+Theorem import_schema_frame_new : forall m s defroot schema cd cs,
+  get s defroot = Some cd -> get s schema = Some cs -> defroot <> schema ->
+  (defroot < s_next s)%N -> (schema < s_next s)%N ->
+  let n := s_next s in
+  let s' := run m s (import_schema_prog s defroot None schema) in
+  get s' defroot = Some (w_kids cd (n :: c_kids cd)) /\
+  (exists d, get s' n = Some (mkC (Some defroot) [schema] d) /\ d_name d = s_types) /\
+  get s' schema = Some (w_parent cs (Some n)) /\
+  (forall i, i <> defroot -> i <> schema -> i <> n -> get s' i = get s i) /\
+  s_next s' = N.succ n.
+Proof. exact import_schema_frame_new_l. Qed.
+Print Assumptions import_schema_frame_new.
+
+(* MultiRef.replace_references(node) with the referenced node r: the referring
+   node keeps its parent and gets r's children after its own (and new data); r's
+   own cell is NOT written -- it still lists those children; each of them now
+   points to the referring node; every other cell is untouched *)
+Theorem replace_references_frame : forall m s node r cn cr k,
+  get s node = Some cn -> get s r = Some cr -> node <> r ->
+  ~ In node (c_kids cr) -> ~ In r (c_kids cr) -> NoDup (c_kids cr) ->
+  (forall c, In c (c_kids cr) -> exists cc, get s c = Some cc) ->
+  get_attr_chain s_href None (chain_of s node) = Some k ->
+  let s' := run m s (replace_refs_prog s node (Some r)) in
+  (exists d', get s' node = Some (mkC (c_parent cn) (c_kids cn ++ c_kids cr) d')) /\
+  get s' r = Some cr /\
+  (forall c cc, In c (c_kids cr) -> get s c = Some cc -> get s' c = Some (w_parent cc (Some node))) /\
+  (forall i, i <> node -> ~ In i (c_kids cr) -> get s' i = get s i) /\
+  s_next s' = s_next s.
+Proof. exact replace_references_frame_l. Qed.
+Print Assumptions replace_references_frame.
+
+(* The well-formedness clause given up, precisely: every child of r is then listed
+   under two parents (node and r) and points to node, so `wf_child_points_back`
+   fails at r -- WF does not hold on any live set containing r ... *)
+Theorem replace_references_shares : forall m s node r cn cr k (live : id -> Prop),
+  get s node = Some cn -> get s r = Some cr -> node <> r ->
+  ~ In node (c_kids cr) -> ~ In r (c_kids cr) -> NoDup (c_kids cr) ->
+  (forall c, In c (c_kids cr) -> exists cc, get s c = Some cc) ->
+  get_attr_chain s_href None (chain_of s node) = Some k ->
+  c_kids cr <> [] -> live r ->
+  let s' := run m s (replace_refs_prog s node (Some r)) in
+  (forall c, In c (c_kids cr) -> In c (kids_of s' node) /\ In c (kids_of s' r)) /\
+  ~ WF s' live.
+Proof. exact replace_references_shares_l. Qed.
+Print Assumptions replace_references_shares.
+
+(* ... and that is ALL that is given up: except for the one stale child list of r,
+   the heap is cell for cell the heap of the MOVE (r's children detached first,
+   then the same program), an ordinary history to which edit_refines_reference
+   and wf_invariant apply whenever it is inside the reference's domain. *)
+Theorem replace_references_is_move_but_one_list : forall m s node r cn cr k,
+  get s node = Some cn -> get s r = Some cr -> node <> r ->
+  ~ In node (c_kids cr) -> ~ In r (c_kids cr) ->
+  get_attr_chain s_href None (chain_of s node) = Some k ->
+  let sa := run m s (replace_refs_prog s node (Some r)) in
+  let sm := run m s (replace_refs_move_prog s node (Some r)) in
+  agree_except r sa sm /\ get sa r = Some cr /\ kids_of sm r = [].
+Proof. exact replace_references_is_move_but_one_list_l. Qed.
+Print Assumptions replace_references_is_move_but_one_list.
+
+(* Document.getChild / childAtPath / childrenAtPath: the root element is matched
+   against the first step (its own prefixes resolving the step's prefix), the
+   rest is the root's own lookup; they return what the reference returns *)
+Theorem document_lookups_exact : forall s rs c r,
+  R s rs -> ref_doc_result rs c = Some r -> call_result s c = r.
+Proof. exact document_lookups_exact_l. Qed.
+Print Assumptions document_lookups_exact.
+
+(* non-vacuity: <Body><a href="#1"/><m id="1">t<v/><v/></m></Body> -- the
+   hypotheses of the three replace_references theorems hold and the MOVE is
+   inside the reference's domain *)
+Definition demo_body : list op :=
+  [ONew [66]%N None; ONew sa None; ONew [109]%N None; ONew [118]%N None; ONew [118]%N None;
+   OAddAttr 1%N s_href [35; 49]%N; OAddAttr 2%N s_id [49]%N; OSetText 2%N (Some [116]%N);
+   OAppend 2%N [3; 4]%N; OAppend 0%N [1; 2]%N].
+
+Example replace_references_nonvacuous :
+  let s := run AEq empty_store demo_body in
+  get_attr_chain s_href None (chain_of s 1%N) = Some 0%nat /\
+  kids_of s 2%N = [3; 4]%N /\
+  kids_of (run AEq s (replace_refs_prog s 1%N (Some 2%N))) 1%N = [3; 4]%N /\
+  kids_of (run AEq s (replace_refs_prog s 1%N (Some 2%N))) 2%N = [3; 4]%N /\
+  (exists rs rs', ref_run empty_rstate demo_body = Some rs /\
+                  ref_run rs (replace_refs_move_prog s 1%N (Some 2%N)) = Some rs').
+Proof. vm_compute. repeat split. eexists. eexists. split; reflexivity. Qed.
